@@ -169,4 +169,35 @@ def ords_timed_pop_n : List Ord := [.rlx, .rlx]
 def defaultFlags : List (String × List Bool) := [("push", [true, true, true]), ("try_push", [true, true, true]), ("push_n", [true, true, true]), ("pop", [true, true, true]), ("try_pop", [true, true]), ("pop_n", [true, true, true])]
 def compFlags : List Bool := [true, false, true, false]
 def timedFlags : List Bool := [true, false]
+
+/- whitespace-free source text (signature types + body) the model was written against; compared by the
+`gen_src_*` obligations with what gen/bq.py extracts from the current source -/
+namespace Pinned
+def decl_slotfutex : String := "classSlotFutex{public:inlineuint16_tversion(::std::memory_orderorder)constnoexcept;template<boolUSE_FUTEX_WAIT>inlinevoidwait_until_reach_expected_version(uint16_texpected_version,conststruct::timespec*timeout,::std::memory_orderorder)noexcept;inlinevoidset_version(uint16_tversion,::std::memory_orderorder)noexcept;inlinevoidwakeup_waiters(uint16_tcurrent_version)noexcept;inlinevoidset_version_and_wakeup_waiters(uint16_tnext_version)noexcept;inlinevoidreset()noexcept;inlinevoidmark_tsan_acquire()noexcept;inlinevoidmark_tsan_release()noexcept;private:voidblock_until_reach_expected_version_slow(uint32_tcurrent_version_and_waiters,uint16_texpected_version,conststruct::timespec*timeout,::std::memory_orderorder)noexcept;voidspin_until_reach_expected_version_slow(uint32_tcurrent_version_and_waiters,uint16_texpected_version,conststruct::timespec*timeout,::std::memory_orderorder)noexcept;Futex<S>_futex{0};};"
+def decl_version_for_index : String := "inlineuint16_tpush_version_for_index(size_tindex)noexcept;inlineuint16_tpop_version_for_index(size_tindex)noexcept;"
+def version : String := "template<typenameT,typenameS>inlineuint16_tConcurrentBoundedQueue<T,S>::SlotFutex::version(::std::memory_orderorder)constnoexcept{return_futex.value().load(order);}"
+def wait : String := "template<typenameT,typenameS>template<boolUSE_FUTEX_WAIT>inlinevoidConcurrentBoundedQueue<T,S>::SlotFutex::wait_until_reach_expected_version(uint16_texpected_version,conststruct::timespec*timeout,::std::memory_orderorder)noexcept{autocurrent_version_and_waiters=_futex.value().load(order);uint16_tversion=current_version_and_waiters;if(version==expected_version){return;}if(USE_FUTEX_WAIT){block_until_reach_expected_version_slow(current_version_and_waiters,expected_version,timeout,order);}else{spin_until_reach_expected_version_slow(current_version_and_waiters,expected_version,timeout,order);}}"
+def set_version : String := "template<typenameT,typenameS>inlinevoidConcurrentBoundedQueue<T,S>::SlotFutex::set_version(uint16_tversion,::std::memory_orderorder)noexcept{reinterpret_cast<::std::atomic<uint16_t>*>(&_futex.value())->store(version,order);}"
+def wakeup_waiters : String := "template<typenameT,typenameS>inlinevoidConcurrentBoundedQueue<T,S>::SlotFutex::wakeup_waiters(uint16_tcurrent_version)noexcept{autocurrent_version_and_waiters=_futex.value().load(::std::memory_order_relaxed);if(current_version_and_waiters<=(65535)){return;}uint16_tversion=current_version_and_waiters;if(version!=current_version){return;}if(_futex.value().compare_exchange_strong(current_version_and_waiters,version,::std::memory_order_relaxed)){_futex.wake_all();}}"
+def set_version_and_wakeup : String := "template<typenameT,typenameS>inlinevoidConcurrentBoundedQueue<T,S>::SlotFutex::set_version_and_wakeup_waiters(uint16_tnext_version)noexcept{autocurrent_version_and_waiters=_futex.value().exchange(next_version,::std::memory_order_release);if(current_version_and_waiters<=(65535)){return;}_futex.wake_all();}"
+def block_slow : String := "template<typenameT,typenameS>__attribute__((noinline))voidConcurrentBoundedQueue<T,S>::SlotFutex::block_until_reach_expected_version_slow(uint32_tcurrent_version_and_waiters,uint16_texpected_version,conststruct::timespec*timeout,::std::memory_orderorder)noexcept{int64_tbegin_time_ns=timeout!=nullptr?::absl::GetCurrentTimeNanos():0;struct::timespecmodified_timeout;uint16_tversion=current_version_and_waiters;while(true){if(current_version_and_waiters<=(65535)){autowait_version_and_waiters=current_version_and_waiters+(65535)+1;if(!_futex.value().compare_exchange_strong(current_version_and_waiters,wait_version_and_waiters,order)){version=current_version_and_waiters;if(version==expected_version){break;}continue;}current_version_and_waiters=wait_version_and_waiters;}(*__errno_location())=0;_futex.wait(current_version_and_waiters,timeout);if((*__errno_location())==110){break;}current_version_and_waiters=_futex.value().load(order);version=current_version_and_waiters;if(version==expected_version){break;}if(timeout!=nullptr){int64_tend_time_ns=::absl::GetCurrentTimeNanos();autowait_duration=::absl::DurationFromTimespec(*timeout);wait_duration-=::absl::Nanoseconds(end_time_ns-begin_time_ns);if(wait_duration<=::absl::Nanoseconds(0)){break;}modified_timeout=::absl::ToTimespec(wait_duration);timeout=&modified_timeout;}}}"
+def spin_slow : String := "template<typenameT,typenameS>__attribute__((noinline))voidConcurrentBoundedQueue<T,S>::SlotFutex::spin_until_reach_expected_version_slow(uint32_tcurrent_version_and_waiters,uint16_texpected_version,conststruct::timespec*timeout,::std::memory_orderorder)noexcept{int64_tbegin_time_ns=timeout!=nullptr?::absl::GetCurrentTimeNanos():0;int64_tend_time_ns=begin_time_ns+(timeout!=nullptr?::absl::ToInt64Nanoseconds(::absl::DurationFromTimespec(*timeout)):0);while(true){S::usleep(1000);current_version_and_waiters=_futex.value().load(order);uint16_tversion=current_version_and_waiters;if(version==expected_version){break;}if(timeout!=nullptr){int64_ttime_ns=::absl::GetCurrentTimeNanos();if(time_ns>end_time_ns){break;}}}}"
+def push_version_for_index : String := "template<typenameT,typenameS>inlineuint16_tConcurrentBoundedQueue<T,S>::push_version_for_index(size_tindex)noexcept{return(index>>_slot_bits)<<1;}"
+def pop_version_for_index : String := "template<typenameT,typenameS>inlineuint16_tConcurrentBoundedQueue<T,S>::pop_version_for_index(size_tindex)noexcept{returnpush_version_for_index(index)+1;}"
+def push_n : String := "template<typenameT,typenameS>template<boolCONCURRENT,boolUSE_FUTEX_WAIT,boolUSE_FUTEX_WAKE,typenameC,typename>inlinevoidConcurrentBoundedQueue<T,S>::push_n(C&&callback,size_tnum){autoindex=CONCURRENT?_next_push_index.fetch_add(num,::std::memory_order_relaxed):_next_push_index.load(::std::memory_order_relaxed);if(!CONCURRENT){_next_push_index.store(index+num,::std::memory_order_relaxed);}autonext_round_begin_index=(index+_slot_mask+1)&~_slot_mask;if(index+num<=next_round_begin_index){deal_n_continuously<USE_FUTEX_WAIT,USE_FUTEX_WAKE,true>(::std::forward<C>(callback),index,num);}else{deal_n_continuously<USE_FUTEX_WAIT,USE_FUTEX_WAKE,true>(::std::forward<C>(callback),index,next_round_begin_index-index);deal_n_continuously<USE_FUTEX_WAIT,USE_FUTEX_WAKE,true>(::std::forward<C>(callback),next_round_begin_index,index+num-next_round_begin_index);}}"
+def pop_n : String := "template<typenameT,typenameS>template<boolCONCURRENT,boolUSE_FUTEX_WAIT,boolUSE_FUTEX_WAKE,typenameC,typename>inlinevoidConcurrentBoundedQueue<T,S>::pop_n(C&&callback,size_tnum){autoindex=CONCURRENT?_next_pop_index.fetch_add(num,::std::memory_order_relaxed):_next_pop_index.load(::std::memory_order_relaxed);if(!CONCURRENT){_next_pop_index.store(index+num,::std::memory_order_relaxed);}autonext_round_begin_index=(index+_slot_mask+1)&~_slot_mask;if(index+num<=next_round_begin_index){deal_n_continuously<USE_FUTEX_WAIT,USE_FUTEX_WAKE,false>(::std::forward<C>(callback),index,num);}else{deal_n_continuously<USE_FUTEX_WAIT,USE_FUTEX_WAKE,false>(::std::forward<C>(callback),index,next_round_begin_index-index);deal_n_continuously<USE_FUTEX_WAIT,USE_FUTEX_WAKE,false>(::std::forward<C>(callback),next_round_begin_index,index+num-next_round_begin_index);}}"
+def try_push_n : String := "template<typenameT,typenameS>template<boolCONCURRENT,boolUSE_FUTEX_WAKE,typenameC,typename>inlinesize_tConcurrentBoundedQueue<T,S>::try_push_n(C&&callback,size_tnum){autoindex=_next_push_index.load(::std::memory_order_relaxed);autoend_index=index+num;autonext_round_begin_index=(index+_slot_mask+1)&~_slot_mask;if(end_index<=next_round_begin_index){returntry_deal_n_continuously<CONCURRENT,USE_FUTEX_WAKE,true>(::std::forward<C>(callback),index,end_index-index);}else{size_tcontinuous_num=next_round_begin_index-index;size_tpushed=try_deal_n_continuously<CONCURRENT,USE_FUTEX_WAKE,true>(::std::forward<C>(callback),index,continuous_num);if(pushed<continuous_num){returnpushed;}returnpushed+try_deal_n_continuously<CONCURRENT,USE_FUTEX_WAKE,true>(::std::forward<C>(callback),next_round_begin_index,end_index-next_round_begin_index);}}"
+def try_pop_n : String := "template<typenameT,typenameS>template<boolCONCURRENT,boolUSE_FUTEX_WAKE,typenameC,typename>inlinesize_tConcurrentBoundedQueue<T,S>::try_pop_n(C&&callback,size_tnum){autoindex=_next_pop_index.load(::std::memory_order_relaxed);autoend_index=index+num;autonext_round_begin_index=(index+_slot_mask+1)&~_slot_mask;if(end_index<=next_round_begin_index){returntry_deal_n_continuously<CONCURRENT,USE_FUTEX_WAKE,false>(::std::forward<C>(callback),index,end_index-index);}else{size_tcontinuous_num=next_round_begin_index-index;size_tpoped=try_deal_n_continuously<CONCURRENT,USE_FUTEX_WAKE,false>(::std::forward<C>(callback),index,continuous_num);if(poped<continuous_num){returnpoped;}returnpoped+try_deal_n_continuously<CONCURRENT,USE_FUTEX_WAKE,false>(::std::forward<C>(callback),next_round_begin_index,end_index-next_round_begin_index);}}"
+def cpush_n : String := "template<typenameT,typenameS>template<typenameC,typenameRC>inlinevoidConcurrentBoundedQueue<T,S>::push_n(C&&callback,RC&&reverse_callback,size_tnum){autoindex=_next_push_index.fetch_add(num,::std::memory_order_relaxed);autonext_round_begin_index=(index+_slot_mask+1)&~_slot_mask;if(index+num<=next_round_begin_index){deal_n_continuously<true>(callback,reverse_callback,index,num);}else{deal_n_continuously<true>(callback,reverse_callback,index,next_round_begin_index-index);deal_n_continuously<true>(callback,reverse_callback,next_round_begin_index,index+num-next_round_begin_index);}}"
+def cpop_n : String := "template<typenameT,typenameS>template<typenameC,typenameRC>inlinevoidConcurrentBoundedQueue<T,S>::pop_n(C&&callback,RC&&reverse_callback,size_tnum){autoindex=_next_pop_index.fetch_add(num,::std::memory_order_relaxed);autonext_round_begin_index=(index+_slot_mask+1)&~_slot_mask;if(index+num<=next_round_begin_index){deal_n_continuously<false>(callback,reverse_callback,index,num);}else{deal_n_continuously<false>(callback,reverse_callback,index,next_round_begin_index-index);deal_n_continuously<false>(callback,reverse_callback,next_round_begin_index,index+num-next_round_begin_index);}}"
+def timed_pop_n : String := "template<typenameT,typenameS>template<boolUSE_FUTEX_WAKE,typenameC,typename>inlinesize_tConcurrentBoundedQueue<T,S>::try_pop_n_exclusively_until(C&&callback,size_tnum,conststruct::timespec*timeout)noexcept{autoindex=_next_pop_index.load(::std::memory_order_relaxed)+num;autoexpected_version=pop_version_for_index(index);autoslot_index=index&_slot_mask;auto&futex=_slots.futex(slot_index);futex.templatewait_until_reach_expected_version<true>(expected_version,timeout,::std::memory_order_relaxed);returntry_pop_n<false,USE_FUTEX_WAKE>(::std::forward<C>(callback),num);}"
+def deal : String := "template<typenameT,typenameS>template<boolUSE_FUTEX_WAIT,boolUSE_FUTEX_WAKE,boolPUSH_OR_POP,typenameC>inlinevoidConcurrentBoundedQueue<T,S>::deal(C&&callback,size_tindex)noexcept{autoexpected_version=PUSH_OR_POP?push_version_for_index(index):pop_version_for_index(index);autoslot_index=index&_slot_mask;auto&futex=_slots.futex(slot_index);futex.templatewait_until_reach_expected_version<USE_FUTEX_WAIT>(expected_version,nullptr,::std::memory_order_acquire);callback(_slots.value(slot_index));if(USE_FUTEX_WAKE){futex.set_version_and_wakeup_waiters(expected_version+1);}else{futex.set_version(expected_version+1,::std::memory_order_release);}}"
+def try_deal : String := "template<typenameT,typenameS>template<boolCONCURRENT,boolUSE_FUTEX_WAKE,boolPUSH_OR_POP,typenameC>inlineboolConcurrentBoundedQueue<T,S>::try_deal(C&&callback)noexcept{auto&next_index=PUSH_OR_POP?_next_push_index:_next_pop_index;autoindex=next_index.load(::std::memory_order_relaxed);while(true){autoexpected_version=PUSH_OR_POP?push_version_for_index(index):pop_version_for_index(index);autoslot_index=index&_slot_mask;auto&futex=_slots.futex(slot_index);if(expected_version!=futex.version(::std::memory_order_acquire)){autocurrent_index=next_index.load(::std::memory_order_relaxed);if(current_index==index){returnfalse;}index=current_index;continue;}ifconstexpr(CONCURRENT){if(!next_index.compare_exchange_weak(index,index+1,::std::memory_order_relaxed)){continue;}}else{next_index.store(index+1,::std::memory_order_relaxed);}callback(_slots.value(slot_index));if(USE_FUTEX_WAKE){futex.set_version_and_wakeup_waiters(expected_version+1);}else{futex.set_version(expected_version+1,::std::memory_order_release);}returntrue;}}"
+def deal_n : String := "template<typenameT,typenameS>template<boolUSE_FUTEX_WAIT,boolUSE_FUTEX_WAKE,boolPUSH_OR_POP,typenameC>inlinevoidConcurrentBoundedQueue<T,S>::deal_n_continuously(C&&callback,size_tindex,size_tnum)noexcept{autoexpected_version=PUSH_OR_POP?push_version_for_index(index):pop_version_for_index(index);autoslot_index=index&_slot_mask;for(size_ti=0;i<num;++i){_slots.futex(slot_index+i).templatewait_until_reach_expected_version<USE_FUTEX_WAIT>(expected_version,nullptr,::std::memory_order_relaxed);}::std::atomic_thread_fence(::std::memory_order_acquire);for(size_ti=0;i<num;++i){_slots.futex(slot_index+i).mark_tsan_acquire();}callback(_slots.value_iterator(slot_index),_slots.value_iterator(slot_index+num));::std::atomic_thread_fence(::std::memory_order_release);for(size_ti=0;i<num;++i){_slots.futex(slot_index+i).mark_tsan_release();}for(size_ti=0;i<num;++i){_slots.futex(slot_index+i).set_version(expected_version+1,::std::memory_order_relaxed);}if(USE_FUTEX_WAKE){::std::atomic_thread_fence(::std::memory_order_seq_cst);for(size_ti=0;i<num;++i){_slots.futex(slot_index+i).wakeup_waiters(expected_version+1);}}}"
+def deal_n_comp : String := "template<typenameT,typenameS>template<boolPUSH_OR_POP,typenameC,typenameRC>inlinevoidConcurrentBoundedQueue<T,S>::deal_n_continuously(C&&callback,RC&&reverse_callback,size_tindex,size_tnum)noexcept{autoexpected_version=PUSH_OR_POP?push_version_for_index(index):pop_version_for_index(index);autoslot_index=index&_slot_mask;for(size_ti=0;i<num;++i){while(expected_version!=_slots.futex(slot_index+i).version(::std::memory_order_relaxed)){autoneed_index=PUSH_OR_POP?_next_pop_index.load(::std::memory_order_relaxed)+capacity():_next_push_index.load(::std::memory_order_relaxed);if(need_index<=index+num){if(PUSH_OR_POP){try_pop_n<true,false>(::std::forward<RC>(reverse_callback),1);}else{try_push_n<true,false>(::std::forward<RC>(reverse_callback),1);}}else{S::yield();}}}::std::atomic_thread_fence(::std::memory_order_acquire);for(size_ti=0;i<num;++i){_slots.futex(slot_index+i).mark_tsan_acquire();}callback(_slots.value_iterator(slot_index),_slots.value_iterator(slot_index+num));::std::atomic_thread_fence(::std::memory_order_release);for(size_ti=0;i<num;++i){_slots.futex(slot_index+i).mark_tsan_release();}for(size_ti=0;i<num;++i){_slots.futex(slot_index+i).set_version(expected_version+1,::std::memory_order_relaxed);}}"
+def try_deal_n : String := "template<typenameT,typenameS>template<boolCONCURRENT,boolUSE_FUTEX_WAKE,boolPUSH_OR_POP,typenameC>inlinesize_tConcurrentBoundedQueue<T,S>::try_deal_n_continuously(C&&callback,size_tindex,size_tnum)noexcept{autoexpected_version=PUSH_OR_POP?push_version_for_index(index):pop_version_for_index(index);autoslot_index=index&_slot_mask;for(size_ti=0;i<num;++i){auto&futex=_slots.futex(slot_index+i);if(expected_version!=futex.version(::std::memory_order_relaxed)){num=i;break;}}if(num==0){return0;}auto&next_index=PUSH_OR_POP?_next_push_index:_next_pop_index;if(CONCURRENT){if(!next_index.compare_exchange_strong(index,index+num,::std::memory_order_relaxed)){return0;}}else{next_index.store(index+num,::std::memory_order_relaxed);}::std::atomic_thread_fence(::std::memory_order_acquire);for(size_ti=0;i<num;++i){_slots.futex(slot_index+i).mark_tsan_acquire();}callback(_slots.value_iterator(slot_index),_slots.value_iterator(slot_index+num));::std::atomic_thread_fence(::std::memory_order_release);for(size_ti=0;i<num;++i){_slots.futex(slot_index+i).mark_tsan_release();}for(size_ti=0;i<num;++i){_slots.futex(slot_index+i).set_version(expected_version+1,::std::memory_order_relaxed);}if(USE_FUTEX_WAKE){::std::atomic_thread_fence(::std::memory_order_seq_cst);for(size_ti=0;i<num;++i){_slots.futex(slot_index+i).wakeup_waiters(expected_version+1);}}returnnum;}"
+def push : String := "{autoindex=CONCURRENT?_next_push_index.fetch_add(1,::std::memory_order_relaxed):_next_push_index.load(::std::memory_order_relaxed);if(!CONCURRENT){_next_push_index.store(index+1,::std::memory_order_relaxed);}deal<USE_FUTEX_WAIT,USE_FUTEX_WAKE,true>(::std::forward<C>(callback),index);}"
+def pop : String := "{autoindex=CONCURRENT?_next_pop_index.fetch_add(1,::std::memory_order_relaxed):_next_pop_index.load(::std::memory_order_relaxed);if(!CONCURRENT){_next_pop_index.store(index+1,::std::memory_order_relaxed);}deal<USE_FUTEX_WAIT,USE_FUTEX_WAKE,false>(::std::forward<C>(callback),index);}"
+end Pinned
+
 end Babylon.BQ.Skel
